@@ -135,6 +135,23 @@ def run_case(case):
                 elif not np.array_equal(gi, first):
                     which = "all_masked_not_zero" if (~anyw & (gi != 0)).any() else "tie_not_first"
                     res["violations"].append({"key": f"argmax_{which}", "what": f"shape {shape} axis {axis} mask {mk}: returned positions {gi.reshape(-1)[:8].tolist()} expected first maximal positions {first.reshape(-1)[:8].tolist()}"})
+        # arg-max of a 0-d array (what the continuation policy does for models without continuous choices): nothing is
+        # reduced, the position is 0, and the maximum is the element itself where unmasked,
+        # else `initial`
+        for _ in range(3):
+            w0 = bool(rng.random() < 0.5)
+            x0 = float(rng.normal())
+            for use_jit in (False, True):
+                f0 = lambda x, w: argmax(x, axis=None, initial=-np.inf, where=w)  # noqa: E731
+                if use_jit:
+                    f0 = jax.jit(f0)
+                gi0, gm0 = f0(jnp.asarray(x0), jnp.asarray(w0))
+                add("argmax_zero_axis_calls")
+                exp0 = x0 if w0 else -np.inf
+                x_used = float(np.asarray(jnp.asarray(x0)))
+                exp0 = x_used if w0 else -np.inf
+                if int(np.asarray(gi0)) != 0 or float(np.asarray(gm0)) != exp0:
+                    res["violations"].append({"key": "argmax_zero_axes_mask_ignored", "what": f"arg-max of a 0-d array with where={w0}: returned ({int(np.asarray(gi0))}, {float(np.asarray(gm0))!r}), expected (0, {exp0!r})"})
         res["sig"] = f"unit{shape}{dt}"
         res["nontrivial"] = bool(np.prod(shape) >= 2)
         res["sample"] = {"kind": "unit", "shape": list(shape), "values": dt, "axis_subsets": [list(a) if a else None for a in axes_list[:6]], "calls": nsub}
